@@ -209,7 +209,7 @@ class ProductOfSums(AbstractControlValues):
             raise ValueError(
                 f"Control values {self} and {other} must act on equal number of qubits"
             )
-        if isinstance(other, ProductOfSums):
+        if isinstance(other, ProductOfSums) and len(self._qubit_sums) == 1:
             return ProductOfSums(tuple(x + y for x, y in zip(self._qubit_sums, other._qubit_sums)))
         return super().__or__(other)
 
